@@ -193,7 +193,7 @@ func (f *frame) instr(ins ssa.Instruction) {
 		for _, r := range x.Results {
 			rs = append(rs, f.val(r))
 		}
-		f.rets = append(f.rets, retInfo{R: f.R, results: rs, st: f.st, pos: x.Pos()})
+		f.rets = append(f.rets, retInfo{R: f.R, results: rs, st: f.st, pos: x.Pos(), blk: x.Block()})
 	case *ssa.Panic:
 		f.oblige("safety", "panic", nil, "false", x.Pos())
 	case *ssa.RunDefers:
